@@ -31,13 +31,20 @@ import "github.com/dcaiafa/lox/internal/base/set"
 // First(D), and '+' by First('+'). Finally ε is in the final result only
 // because First(D) includes it.
 func First(g *Grammar, syms []Term) set.Set[*Terminal] {
-	visited := new(set.Set[Term])
+	ruleFirst := ruleFirstSets(g)
+	firstOf := func(sym Term) set.Set[*Terminal] {
+		if terminal, ok := sym.(*Terminal); ok {
+			return set.New[*Terminal](terminal)
+		}
+		return ruleFirst[sym.(*Rule)]
+	}
 	if len(syms) == 1 {
-		return first(g, visited, syms[0])
+		single := firstOf(syms[0])
+		return single.Clone()
 	}
 	var firstSet set.Set[*Terminal]
 	for _, sym := range syms {
-		partialFirst := first(g, visited, sym)
+		partialFirst := firstOf(sym)
 		firstSet.AddSet(partialFirst)
 
 		// If sym[i] includes ε, include FIRST(sym[i+1]) in FIRST(syms).
@@ -50,45 +57,40 @@ func First(g *Grammar, syms []Term) set.Set[*Terminal] {
 	return firstSet
 }
 
-func first(g *Grammar, visited *set.Set[Term], s Term) set.Set[*Terminal] {
-	if terminal, ok := s.(*Terminal); ok {
-		return set.New[*Terminal](terminal)
-	}
-
-	// Productions can contain recursion.
-	// E.g.: xs = xs x | x
-	if visited.Has(s) {
-		return set.Set[*Terminal]{}
-	}
-	visited.Add(s)
-
-	rule := s.(*Rule)
-	firstSet := set.Set[*Terminal]{}
-	for _, prod := range rule.Prods {
-		if len(prod.Terms) == 0 {
-			firstSet.Add(Epsilon)
-			continue
-		}
-
-		addEpsilon := true
-		for _, term := range prod.Terms {
-			termFirst := first(g, visited, term)
-			hasEpsilon := false
-			termFirst.ForEach(func(s *Terminal) {
-				if s == Epsilon {
-					hasEpsilon = true
-					return
+// ruleFirstSets computes FIRST for every rule of the grammar as a least fixed
+// point, so that recursive and repeated nullable rules are handled correctly.
+// ε (Epsilon) is a member of the set of a nullable rule.
+func ruleFirstSets(g *Grammar) map[*Rule]set.Set[*Terminal] {
+	sets := make(map[*Rule]set.Set[*Terminal], len(g.Rules))
+	for changed := true; changed; {
+		changed = false
+		for _, rule := range g.Rules {
+			firstSet := sets[rule]
+			for _, prod := range rule.Prods {
+				addEpsilon := true
+				for _, term := range prod.Terms {
+					if terminal, ok := term.(*Terminal); ok {
+						changed = firstSet.Add(terminal) || changed
+						addEpsilon = false
+						break
+					}
+					termFirst := sets[term.(*Rule)]
+					termFirst.ForEach(func(s *Terminal) {
+						if s != Epsilon {
+							changed = firstSet.Add(s) || changed
+						}
+					})
+					if !termFirst.Has(Epsilon) {
+						addEpsilon = false
+						break
+					}
 				}
-				firstSet.Add(s)
-			})
-			if !hasEpsilon {
-				addEpsilon = false
-				break
+				if addEpsilon {
+					changed = firstSet.Add(Epsilon) || changed
+				}
 			}
-		}
-		if addEpsilon {
-			firstSet.Add(Epsilon)
+			sets[rule] = firstSet
 		}
 	}
-	return firstSet
+	return sets
 }
